@@ -42,6 +42,11 @@ type World interface {
 	// the caller was actually descheduled by a cooperative scheduler (false:
 	// free-running, the caller must block for real if it has to wait).
 	Yield(tag string) bool
+	// Durable reports that the run executes inside a synctest bubble even
+	// when it is not cooperatively scheduled: blocking must then happen on
+	// bubble channels (durably), or the virtual clock could never advance
+	// while a lock holder waits on a timer.
+	Durable() bool
 	// LoopTick is called at the top of condition-less loops.
 	LoopTick(site string)
 	// Finalizer is told about runtime.SetFinalizer calls that were suppressed.
